@@ -73,6 +73,10 @@ struct Keys {
             if (H(zero) == H("")) {
                 k.push_back(zero); // "" vs "\0"
             }
+            if (H("10") == H("20")) {
+                k.push_back("10"); // equal length, equal full hash, different text
+                k.push_back("20");
+            }
             for (int c = 1; c < 256; c++) {
                 std::string s2 = std::string("a") + char(c);
                 if (H(s2) == h1) {
